@@ -678,7 +678,7 @@ def _wire(repo: Repo, name: str, v1, v2, axis=0):
     w.set("corners", [0, 1])
     w.set("axis", axis)
     w.set("coincidents", set())
-    w.set("edge", Obj(f"{name}.edge", kind="line"))
+    w.set("edge", Obj(f"{name}.edge", kind="line", length=Sym(f"{name}.length")))
     return w
 
 
